@@ -44,6 +44,25 @@
 (* contradiction of the engine clauses (the key is no longer judged) - the  *)
 (* expiry times themselves are C06's matter.                                *)
 (*                                                                         *)
+(*  (f) the text key commands.  Every key command registered in the text     *)
+(*      dispatch tables has a CLASS, taken from what the command does on a   *)
+(*      LEADER: WriteNames change engine state there (the leader's handler   *)
+(*      runs LockDB.Lock / UnLock with the converted command), ReadNames     *)
+(*      only look.  Through a non-leader a write-class command is refused    *)
+(*      or forwarded - an answer with no upstream request for it is          *)
+(*      non-leader-answered-on-its-own - and its answer is the leader's      *)
+(*      frame as the command's reply writer renders it (value, number,       *)
+(*      size: relayed-reply-differs); a read-class command may be answered   *)
+(*      from the replica.  The leader's values follow the sequential         *)
+(*      key-value store of spec/RedisCmds.tla (Exec) applied to the          *)
+(*      commands the leader accepted, whichever node they were sent to:      *)
+(*      reads on the leader and the values read back at the end must be      *)
+(*      replies of that store (get-differs-from-last-acknowledged-set,       *)
+(*      leader-value-differs-from-last-acknowledged-set).  Where that store  *)
+(*      leaves a case open, a time-to-live may have run out, or the leader   *)
+(*      refused a command the store would accept (C15's matters), the key    *)
+(*      is not judged until an unconditional write makes it known again.     *)
+(*                                                                         *)
 (* Agnostic where the statement is silent: which of refuse / forward is    *)
 (* chosen; the code and text of a refusal; timing; the fate of requests    *)
 (* that were in flight when their upstream connection broke (their keys    *)
@@ -66,6 +85,19 @@ SUCCED == 0   LOCKED_ERROR == 5   UNLOCK_ERROR == 6   UNOWN_ERROR == 7
 TIMEOUT == 8  EXPRIED == 9        STATE_ERROR == 10   ERROR == 11
 TEXTERR == 0 - 1
 
+\* the plain key-value store of the Redis-style text commands (C15's reference)
+RC == INSTANCE RedisCmds
+
+\* classes of the text key commands: does the command change engine state on a LEADER?  (server/protocol.go
+\* TextServerProtocol.FindHandler: commandHandlerKeyWriteValueCommand runs LockDB.Lock / UnLock with the converted command;
+\* commandHandlerKeyReadValueCommand / ..KeyTTLCommand / ..KeysCommand / ..ScanCommand only look)
+WriteNames == {"SET", "SETNX", "SETEX", "PSETEX", "GETSET", "APPEND", "INCR", "INCRBY", "DECR", "DECRBY",
+               "EXPIRE", "PEXPIRE", "EXPIREAT", "PEXPIREAT", "PERSIST", "DEL"}
+ReadNames  == {"GET", "STRLEN", "EXISTS", "TYPE", "DUMP", "TTL", "PTTL", "KEYS", "SCAN"}
+\* (cmd "C": SELECT / TIMEOUT - settings of the connection itself, handled by the node the connection is on)
+IsRead(r)       == r.cmd \in {"G", "C"} \/ (r.cmd = "V" /\ r.name \in ReadNames)
+IsValueWrite(r) == r.cmd \in {"S", "D"} \/ (r.cmd = "V" /\ r.name \in WriteNames)
+
 Bit(x, b) == (x \div b) % 2 = 1
 F_SHOW == 1   F_UPDATE == 2   F_CONC == 8
 UF_FIRST == 1   UF_CANCEL == 2
@@ -85,7 +117,7 @@ Report(mm, p, code, detail) ==
 Check(mm, cond, p, code, detail) == IF cond THEN mm ELSE Report(mm, p, code, detail)
 
 M0 == [ reqs |-> EmptyFn, ups |-> EmptyFn, upseen |-> {}, holds |-> EmptyFn, taint |-> {}, roles |-> EmptyFn, gone |-> {}, frozen |-> FALSE,
-        vals |-> EmptyFn, maxd |-> EmptyFn, upof |-> EmptyFn, upnode |-> EmptyFn, notes |-> EmptyFn, closed |-> {}, lsnap |-> <<>>, lvals |-> <<>>, vkeys |-> {}, ldr |-> "L", nv |-> 0, tr |-> 0, name |-> "" ]
+        vals |-> EmptyFn, kv |-> EmptyFn, t0 |-> 0, tnow |-> 0, maxd |-> EmptyFn, upof |-> EmptyFn, upnode |-> EmptyFn, notes |-> EmptyFn, closed |-> {}, lsnap |-> <<>>, lvals |-> <<>>, vkeys |-> {}, ldr |-> "L", nv |-> 0, tr |-> 0, name |-> "" ]
 
 HoldsOf(mm, d, k) == IF <<d, k>> \in DOMAIN mm.holds THEN mm.holds[<<d, k>>] ELSE <<>>
 DepthSum(H) == FoldLeft(LAMBDA acc, h : acc + h.depth, 0, H)
@@ -125,9 +157,11 @@ StepReq(mm, e) ==
         clash == {id \in OpenOn(mm, d, e.key, 0) : mm.reqs[id].to = 0} # {} /\ e.cmd \in {"L", "U"} /\ e.to = 0
         r == [id |-> e.id, conn |-> e.conn, node |-> e.node, proto |-> e.proto, cmd |-> e.cmd, key |-> e.key, lid |-> e.lid, flag |-> e.flag,
               tf |-> e.tf, to |-> e.to, ef |-> e.ef, ex |-> e.ex, exlo |-> e.exlo, exhi |-> e.exhi, cnt |-> e.cnt, rc |-> e.rc, val |-> e.val, first |-> e.first, len |-> e.len,
-              uprid |-> e.uprid, tap |-> e.tap, ts |-> e.ts, st |-> "open", dom |-> d, nfl |-> 0, role |-> RoleOf(mm, e.node), broken |-> FALSE,
+              name |-> e.name, valb |-> e.valb, kc |-> e.kc, kd |-> e.kd,
+              uprid |-> e.uprid, tap |-> e.tap, ts |-> e.ts, st |-> "open", rres |-> 0 - 9, dom |-> d, nfl |-> 0, role |-> RoleOf(mm, e.node), broken |-> FALSE,
               nolead |-> (e.node \in mm.gone \/ RoleOf(mm, e.node) = "config"), infreeze |-> (mm.frozen /\ RoleOf(mm, e.node) # "leader")]
-    IN [mm EXCEPT !.reqs = SetFn(@, e.id, r), !.taint = IF clash THEN @ \cup {<<d, e.key>>} ELSE @]
+    IN [mm EXCEPT !.reqs = SetFn(@, e.id, r), !.taint = IF clash THEN @ \cup {<<d, e.key>>} ELSE @,
+                  !.t0 = IF @ = 0 THEN e.ts ELSE @, !.tnow = e.ts]
 
 \* requests of a node that were open when one of its upstream connections broke / its leader went away / its role changed
 \* a later request of the same connection travelled on the same upstream connection (rollbackLatestCommand knows only the
@@ -135,6 +169,10 @@ StepReq(mm, e) ==
 LaterForwarded(mm, id) == {x \in DOMAIN mm.reqs : x > id /\ mm.reqs[x].conn = mm.reqs[id].conn /\ mm.reqs[x].uprid \in DOMAIN mm.upof
                                                   /\ mm.reqs[id].uprid \in DOMAIN mm.upof /\ mm.upof[mm.reqs[x].uprid] = mm.upof[mm.reqs[id].uprid]} # {}
 ExcuseNotes(N) == [i \in 1..Len(N) |-> [N[i] EXCEPT !.exc = TRUE]]
+\* ... or the fabricated RESULT_ERROR of rollbackLatestCommand went to a LATER request of the same connection (the frames of a
+\* connection that broke before the proxy had read its first frame are not on record)
+LaterRolledBack(mm, id) == {x \in DOMAIN mm.reqs : x > id /\ mm.reqs[x].conn = mm.reqs[id].conn /\ mm.reqs[x].node = mm.reqs[id].node
+                                                     /\ mm.reqs[x].st = "done" /\ mm.reqs[x].rres = ERROR} # {}
 Break(mm, n) == [mm EXCEPT !.reqs = [id \in DOMAIN @ |-> IF @[id].node = n /\ @[id].st = "open" THEN [@[id] EXCEPT !.broken = TRUE] ELSE @[id]],
                            !.notes = [x \in DOMAIN @ |-> IF x \in DOMAIN mm.upnode /\ mm.upnode[x] = n THEN ExcuseNotes(@[x]) ELSE @[x]]]
 
@@ -150,7 +188,8 @@ BreakUp(mm, n, u) == [mm EXCEPT !.reqs = [id \in DOMAIN @ |-> IF @[id].node = n 
 \* request - and the expired hold leaves the picture of the deciding engine.
 ReqOfUp(mm, rid) == {id \in DOMAIN mm.reqs : mm.reqs[id].uprid = rid}
 StepUpReply(mm, e) ==
-    LET fr == [res |-> e.res, lid |-> e.lid, key |-> e.key, lc |-> e.lc, cnt |-> e.cnt, lrc |-> e.lrc, rc |-> e.rc, datap |-> e.datap] IN
+    LET fr == [res |-> e.res, lid |-> e.lid, key |-> e.key, lc |-> e.lc, cnt |-> e.cnt, lrc |-> e.lrc, rc |-> e.rc, datap |-> e.datap,
+               dkind |-> e.dkind, dvb |-> e.dvb, dnum |-> e.dnum, dlen |-> e.dlen, dempty |-> e.dempty] IN
     IF e.rid \notin DOMAIN mm.ups
     THEN [mm EXCEPT !.ups = SetFn(@, e.rid, fr),
                     !.maxd = IF e.ct = 1 /\ e.res = SUCCED THEN SetFn(@, e.key, Max({e.lc, IF e.key \in DOMAIN @ THEN @[e.key] ELSE 0})) ELSE @]
@@ -239,18 +278,51 @@ UnlockReply(mm, e, r, d, k) ==
                [rid |-> r.id, node |-> r.node, key |-> k, lid |-> lid, res |-> e.res])
     ELSE mm
 
-ValueReply(mm, e, r, decided) ==
-    IF r.cmd = "S"
-    THEN IF e.res = SUCCED /\ decided THEN [mm EXCEPT !.vals = SetFn(@, r.key, [known |-> (r.ex = 0), nil |-> FALSE, val |-> r.val])]    \* (a value set with an expiry may be gone later: C15's matter)
-         ELSE IF r.uprid # 0 THEN [mm EXCEPT !.vals = SetFn(@, r.key, [known |-> FALSE, nil |-> FALSE, val |-> ""])] ELSE mm
-    ELSE IF r.cmd = "D"
-    THEN IF e.res = SUCCED /\ decided THEN [mm EXCEPT !.vals = SetFn(@, r.key, [known |-> TRUE, nil |-> TRUE, val |-> ""])]
-         ELSE IF r.uprid # 0 /\ e.res # UNLOCK_ERROR THEN [mm EXCEPT !.vals = SetFn(@, r.key, [known |-> FALSE, nil |-> FALSE, val |-> ""])] ELSE mm
-    ELSE \* GET answered by a leader from its own state: the last acknowledged SET
-         IF r.role = "leader" /\ r.node = "L" /\ r.key \in DOMAIN mm.vals /\ mm.vals[r.key].known
-         THEN Check(mm, e.nil = mm.vals[r.key].nil /\ (e.nil \/ e.val = mm.vals[r.key].val), "C10", "get-differs-from-last-acknowledged-set",
-                    [rid |-> r.id, key |-> r.key, got |-> e.val, expected |-> mm.vals[r.key].val])
+\* ---- values: the sequential key-value store of RedisCmds applied to what the LEADER accepted
+KvOf(mm, k) == IF k \in DOMAIN mm.kv THEN mm.kv[k] ELSE [known |-> TRUE, v |-> RC!Absent]       \* (every history has keys of its own)
+NowMs(mm) == (mm.tnow - mm.t0) * 1000
+Sure(v, now) == ~v.p \/ RC!SureAlive(v.ttl, now)
+KvCmd(r) == [c |-> r.kc, k |-> r.key, v |-> r.valb, d |-> r.kd]
+ReplyRec(x) == [t |-> x.rk, s |-> IF x.rk = "bulk" THEN x.rsb ELSE <<>>, n |-> IF x.rk = "int" THEN x.ri ELSE 0]
+Unconditional == {"SET", "SET_EX", "SET_PX", "SETEX", "PSETEX", "GETSET"}
+\* did the leader accept the command?  own: only its rendered answer is seen; through a non-leader: its result code
+AcceptedByAnswer(r, e) ==
+    CASE r.kc \in {"SET", "SET_EX", "SET_PX", "SETEX", "PSETEX"} -> e.rk = "ok"
+      [] r.kc = "SETNX" -> e.rk = "int" /\ e.ri = 1
+      [] r.kc = "GETSET" -> e.rk \in {"bulk", "int", "nil"}
+      [] r.kc \in {"INCR", "INCRBY", "DECR", "DECRBY", "APPEND"} -> e.rk \in {"int", "bigint"}
+      [] r.kc \in {"EXPIRE", "PEXPIRE", "EXPIREAT", "PEXPIREAT", "PERSIST"} -> e.rk = "int" /\ e.ri = 1
+      [] r.kc = "DEL" -> e.rk = "int"
+      [] OTHER -> FALSE
+ValueReply(mm, e, r, decided, viaFrame, u) ==
+    LET st  == KvOf(mm, r.key)
+        now == NowMs(mm)
+        Put(x) == [mm EXCEPT !.kv = SetFn(@, r.key, x)]
+        unknown == Put([known |-> FALSE, v |-> RC!Absent])
+    IN
+    IF IsRead(r)
+    THEN \* a read answered by the leader from its own state: a reply of the store
+         IF r.role = "leader" /\ r.node = mm.ldr /\ r.kc # "" /\ st.known /\ Sure(st.v, now)
+         THEN LET ex == RC!Exec([x \in {r.key} |-> st.v], KvCmd(r), now)
+              IN Check(mm, ex.open \/ ReplyRec(e) \in ex.replies, "C10", "get-differs-from-last-acknowledged-set",
+                       [rid |-> r.id, key |-> r.key, cmd |-> r.kc, got |-> ReplyRec(e), expected |-> ex.replies])
          ELSE mm
+    ELSE IF ~IsValueWrite(r) THEN mm
+    ELSE IF ~decided
+    THEN \* not the leader's answer: forwarded and lost -> the value is not known; never forwarded -> nothing happened
+         IF r.uprid # 0 /\ ~(r.cmd = "D" /\ e.res = UNLOCK_ERROR) THEN unknown ELSE mm
+    ELSE IF r.kc = "" \/ r.dom # mm.ldr THEN unknown
+    ELSE
+    LET acc == IF viaFrame THEN (IF r.kc = "DEL" THEN TRUE ELSE u.res \in {SUCCED, LOCKED_ERROR}) ELSE AcceptedByAnswer(r, e)
+        \* (the answer of GETSET does not say whether the leader accepted it: on a key it refuses writes for, nothing is known)
+        blind == ~viaFrame /\ r.kc = "GETSET" /\ st.known /\ st.v.p /\ st.v.nx
+        base == IF st.known /\ Sure(st.v, now) THEN st.v ELSE RC!Absent
+        ex  == RC!Exec([x \in {r.key} |-> base], KvCmd(r), now)
+    IN IF blind \/ ex.open THEN unknown                  \* (the store leaves the case open - INCR on a string, a millisecond term ...)
+       ELSE IF ~acc THEN mm                              \* refused by the leader: its value stays
+       ELSE IF st.known /\ Sure(st.v, now) THEN Put([known |-> TRUE, v |-> ex.kv[r.key]])
+       ELSE IF r.kc \in Unconditional \/ r.kc = "DEL" THEN Put([known |-> TRUE, v |-> ex.kv[r.key]])
+       ELSE unknown
 
 Refusal(e) == e.res \in {STATE_ERROR, ERROR, TEXTERR}
 FirstShort(r) == r.first /\ r.len > 0 /\ r.len <= 64 /\ r.role = "follower"
@@ -262,6 +334,31 @@ FastPath(mm, r, e) == /\ r.cmd = "L" /\ e.res = TIMEOUT /\ Bit(r.flag, F_CONC) /
                          \/ Bit(r.tf, TF_WAITUNLOCK)
                          \/ Tainted(mm, r.dom, r.key)
 
+\* ---- the answer of a text write command is the leader's frame as the command's reply writer renders it
+\* (protocol/textcommand.go WriteText..CommandResult); t = "open": a value shape that is not generated, not judged
+RErr(n) == [t |-> "err", s |-> <<>>, n |-> n]
+ROpen   == [t |-> "open", s |-> <<>>, n |-> 0]
+Rendered(r, u) ==
+    LET ok5 == u.res \in {SUCCED, LOCKED_ERROR}
+        d   == IF r.kc = "INCR" THEN 1 ELSE IF r.kc = "DECR" THEN 0 - 1 ELSE IF r.kc = "INCRBY" THEN r.kd ELSE 0 - r.kd
+    IN
+    CASE r.kc \in {"SET", "SET_EX", "SET_PX", "SETEX", "PSETEX"} -> IF ok5 THEN RC!ROk ELSE IF u.res = TIMEOUT THEN RC!RNil ELSE RErr(u.res)
+      [] r.kc = "SETNX" -> IF ok5 THEN RC!RInt(1) ELSE IF u.res = TIMEOUT THEN RC!RInt(0) ELSE RErr(u.res)
+      [] r.kc = "GETSET" -> IF u.res \in {LOCKED_ERROR, UNOWN_ERROR} /\ u.dkind # "none"
+                            THEN (IF u.dkind = "num" THEN RC!RInt(u.dnum) ELSE IF u.dkind = "big" THEN ROpen
+                                  ELSE IF u.dempty THEN RC!RNil ELSE RC!RBulk(u.dvb))
+                            ELSE RC!RNil
+      [] r.kc = "APPEND" -> IF ok5 THEN RC!RInt((IF u.dkind = "none" THEN 0 ELSE u.dlen) + Len(r.valb))
+                            ELSE IF u.res = TIMEOUT THEN RC!RNil ELSE RErr(u.res)
+      [] r.kc \in {"INCR", "INCRBY", "DECR", "DECRBY"} -> IF ~ok5 THEN RErr(u.res) ELSE IF u.dkind = "big" THEN ROpen
+                                                           ELSE RC!RInt((IF u.dkind = "none" THEN 0 ELSE u.dnum) + d)
+      [] r.kc \in {"EXPIRE", "PEXPIRE", "EXPIREAT", "PEXPIREAT", "PERSIST"} -> IF ok5 THEN RC!RInt(1) ELSE IF u.res = TIMEOUT THEN RC!RInt(0) ELSE RErr(u.res)
+      [] r.kc = "DEL" -> IF u.res = SUCCED THEN RC!RInt(1) ELSE RC!RInt(0)
+      [] OTHER -> ROpen
+SameRendered(e, r, u) ==
+    LET x == Rendered(r, u) IN
+    x.t = "open" \/ e.rk = "bigint" \/ (e.rk = x.t /\ (x.t \in {"int", "err"} => e.ri = x.n) /\ (x.t = "bulk" => e.rsb = x.s))
+
 \* does the reply the client got equal the leader's reply for the same request?
 SameAsLeader(e, r, u) ==
     IF r.cmd \in {"L", "U"}
@@ -269,6 +366,7 @@ SameAsLeader(e, r, u) ==
          /\ (r.proto = "text" \/ e.key = u.key)
     ELSE IF r.cmd = "S" THEN (e.res = SUCCED) = (u.res \in {SUCCED, LOCKED_ERROR})
     ELSE IF r.cmd = "D" THEN (e.res = SUCCED) = (u.res = SUCCED)
+    ELSE IF r.cmd = "V" /\ r.name \in WriteNames THEN SameRendered(e, r, u)
     ELSE TRUE
 
 \* all fields of what a client received equal to a leader frame u (a text reply does not show the key)
@@ -316,17 +414,28 @@ StepReply(mm, e) ==
     THEN \* an EXPRIED notice for a granted lock is legitimate; anything else is a second reply
          StepSecond(mm, m1, e, r, d, k)
     ELSE
-    LET m2 == [m1 EXCEPT !.reqs[e.rid].st = "done"]
+    LET m2 == [m1 EXCEPT !.reqs[e.rid].st = "done", !.reqs[e.rid].rres = e.res]
         own   == r.role = "leader" \/ (~r.tap /\ RoleOf(mm, r.node) = "leader")     \* decided by the node it was sent to
         hasUp == r.uprid # 0 /\ r.uprid \in DOMAIN mm.ups
-        u     == IF hasUp THEN mm.ups[r.uprid] ELSE [res |-> 0 - 9, lid |-> 0, key |-> 0, lc |-> 0, cnt |-> 0, lrc |-> 0, rc |-> 0, datap |-> ""]
+        u     == IF hasUp THEN mm.ups[r.uprid] ELSE [res |-> 0 - 9, lid |-> 0, key |-> 0, lc |-> 0, cnt |-> 0, lrc |-> 0, rc |-> 0, datap |-> "",
+                                                      dkind |-> "none", dvb |-> <<>>, dnum |-> 0, dlen |-> 0, dempty |-> TRUE]
         same  == hasUp /\ SameAsLeader(e, r, u)
         decided == own \/ same \/ (~r.tap /\ ~Refusal(e))
         \* (c) what a non-leader says
-        m3 == IF own \/ r.cmd = "G" \/ ~r.tap THEN m2
+        m3 == IF own \/ IsRead(r) \/ ~r.tap THEN m2              \* (a read-class command may be answered from the replica)
+              ELSE IF r.cmd = "P"
+              THEN \* PUSH: executed without an answer of its own (the handler says OK once the command is on its way): the OK of a
+                   \* non-leader must stand for a command it did put on its way to the leader
+                   Check(m2, e.res # SUCCED \/ r.uprid # 0, "C10", "non-leader-answered-on-its-own",
+                         [rid |-> r.id, node |-> r.node, conn |-> r.conn, proto |-> r.proto, cmd |-> r.cmd, name |-> "PUSH", key |-> k,
+                          flag |-> r.flag, timeout |-> r.to, rcount |-> r.rc, res |-> e.res, lc |-> e.lc, forwarded |-> FALSE])
               ELSE IF same
               THEN Check(Check(m2, ~r.nolead \/ e.res # SUCCED, "C10", "no-leader-request-answered-succed", [rid |-> r.id, node |-> r.node, res |-> e.res]),
                          ~(r.infreeze /\ mm.frozen), "C10", "reply-while-leader-frozen", [rid |-> r.id, node |-> r.node, res |-> e.res])
+              ELSE IF r.cmd = "V" /\ r.uprid = 0 /\ ~Refusal(e) /\ ~FirstShort(r)
+              THEN \* a write-class key command answered - value, number, OK, nil - with no request to the leader for it
+                   Report(m2, "C10", "non-leader-answered-on-its-own", [rid |-> r.id, node |-> r.node, conn |-> r.conn, proto |-> r.proto, cmd |-> r.cmd, name |-> r.name, key |-> k,
+                                                                       flag |-> r.flag, timeout |-> r.to, rcount |-> r.rc, res |-> e.res, lc |-> e.lc, forwarded |-> FALSE])
               ELSE IF e.res = SUCCED
               THEN Report(m2, "C10", IF hasUp THEN "relayed-reply-differs" ELSE "fabricated-success",
                           [rid |-> r.id, node |-> r.node, conn |-> r.conn, proto |-> r.proto, cmd |-> r.cmd, key |-> k, forwarded |-> (r.uprid # 0),
@@ -342,7 +451,8 @@ StepReply(mm, e) ==
                    THEN Report(m2, "OBS", "first-text-command-answered-by-inner-protocol", [rid |-> r.id, node |-> r.node, cmd |-> r.cmd, res |-> e.res, err |-> e.err])
                    ELSE m2
               ELSE IF hasUp
-              THEN Report(m2, "C10", "relayed-reply-differs", [rid |-> r.id, node |-> r.node, proto |-> r.proto, cmd |-> r.cmd,
+              THEN Report(m2, "C10", "relayed-reply-differs", [rid |-> r.id, node |-> r.node, proto |-> r.proto, cmd |-> r.cmd, name |-> r.name,
+                                                               answer |-> ReplyRec(e), leader_answer |-> IF r.cmd = "V" THEN Rendered(r, u) ELSE ROpen,
                                                                got |-> [res |-> e.res, lid |-> e.lid, lc |-> e.lc, cnt |-> e.cnt, lrc |-> e.lrc, rc |-> e.rc, datap |-> e.datap], leader |-> u])
               ELSE IF FastPath(mm, r, e)
               THEN m2          \* the documented follower fast path: concurrent-check flag AND no wait AND the key full in the replica
@@ -351,12 +461,12 @@ StepReply(mm, e) ==
                    \* (UNLOCK_ERROR for a key its replica does not have, DEL -> :0): recorded, not judged
                    Report(m2, "OBS", "first-text-command-answered-by-inner-protocol", [rid |-> r.id, node |-> r.node, cmd |-> r.cmd, res |-> e.res, err |-> e.err])
               ELSE \* neither the leader's reply nor a refusal nor the fast path: the node answered from its own state
-                   Report(m2, "C10", "non-leader-answered-on-its-own", [rid |-> r.id, node |-> r.node, conn |-> r.conn, proto |-> r.proto, cmd |-> r.cmd, key |-> k,
+                   Report(m2, "C10", "non-leader-answered-on-its-own", [rid |-> r.id, node |-> r.node, conn |-> r.conn, proto |-> r.proto, cmd |-> r.cmd, name |-> r.name, key |-> k,
                                                                        flag |-> r.flag, timeout |-> r.to, rcount |-> r.rc, res |-> e.res, lc |-> e.lc, forwarded |-> (r.uprid # 0)])
         \* (e) the answer of a request is the leader's frame for THAT VERY request: when what the client was told is none of
         \* refusal / the leader's reply / the fast path (one of the reports above) AND equals a frame the leader sent for
         \* ANOTHER request over this node, the node handed out the frame of another request (first of all: an unsolicited notice)
-        bad == ~own /\ r.cmd # "G" /\ r.tap /\ ~same /\ ~Refusal(e) /\ (e.res = SUCCED \/ hasUp \/ (~FastPath(mm, r, e) /\ ~FirstShort(r)))
+        bad == ~own /\ ~IsRead(r) /\ r.cmd # "P" /\ r.tap /\ ~same /\ ~Refusal(e) /\ (e.res = SUCCED \/ hasUp \/ (~FastPath(mm, r, e) /\ ~FirstShort(r)))
         FN  == ForeignNotes(mm, e, r)
         FR  == ForeignReplies(mm, e, r)
         m3b == IF bad /\ (FN \cup FR) # {}
@@ -371,12 +481,15 @@ StepReply(mm, e) ==
                ELSE m3
         \* requests whose fate at the leader is unknown: stop judging the key
         unknownFate == ~decided /\ r.uprid # 0 /\ r.cmd \in {"L", "U"}
-        m4 == IF unknownFate THEN [m3b EXCEPT !.taint = @ \cup {<<d, k>>}] ELSE m3b
+        m4a == IF unknownFate THEN [m3b EXCEPT !.taint = @ \cup {<<d, k>>}] ELSE m3b
+        \* (the hold a PUSH takes is never announced to anybody: its key is not judged)
+        m4 == IF r.cmd = "P" THEN [m4a EXCEPT !.taint = @ \cup {<<d, k>>}, !.tnow = e.ts] ELSE [m4a EXCEPT !.tnow = e.ts]
         \* (b) engine effects of decided replies
-        m5 == IF ~decided THEN (IF r.cmd \in {"S", "D"} THEN ValueReply(m4, e, r, FALSE) ELSE m4)
+        m5 == IF r.cmd = "P" THEN m4
+              ELSE IF ~decided THEN ValueReply(m4, e, r, FALSE, FALSE, u)
               ELSE IF r.cmd = "L" THEN LockReply(m4, e, r, d, k)
               ELSE IF r.cmd = "U" THEN UnlockReply(m4, e, r, d, k)
-              ELSE ValueReply(m4, e, r, TRUE)
+              ELSE ValueReply(m4, e, r, TRUE, ~own /\ same, u)
     IN m5
 
 \* the driver gave up waiting for a reply
@@ -389,7 +502,7 @@ StepUnanswered(mm, e) ==
        THEN \* forwarded, its upstream connection broke, and the node told the client nothing: neither refused nor relayed
             \* (rollbackLatestCommand answers only the latest request written to the upstream)
             Report(m1, "C10", "request-via-follower-never-answered",
-                   [cause |-> IF LaterForwarded(mm, r.id) THEN "upstream-broke-request-was-not-the-latest-forwarded" ELSE "upstream-broke",
+                   [cause |-> IF LaterForwarded(mm, r.id) \/ LaterRolledBack(mm, r.id) THEN "upstream-broke-request-was-not-the-latest-forwarded" ELSE "upstream-broke",
                     rid |-> r.id, node |-> r.node, conn |-> r.conn, proto |-> r.proto, leader_answered |-> hasUp])
        ELSE IF hasUp THEN Report(m1, "C10", "leader-reply-not-relayed", [rid |-> r.id, node |-> r.node, conn |-> r.conn, leader |-> mm.ups[r.uprid].res])
        ELSE Report(m1, "C10", "request-never-answered", [rid |-> r.id, node |-> r.node, conn |-> r.conn, forwarded |-> (r.uprid # 0)])
@@ -465,10 +578,12 @@ StepSnap(mm, e) ==
 
 StepVals(mm, e) ==
     IF e.lead
-    THEN LET Bad == {i \in 1..Len(e.vals) : e.vals[i].key \in DOMAIN mm.vals /\ mm.vals[e.vals[i].key].known
-                                            /\ ~(e.vals[i].nil = mm.vals[e.vals[i].key].nil /\ (e.vals[i].nil \/ e.vals[i].val = mm.vals[e.vals[i].key].val))}
+    THEN \* the values of the leader at the end: replies of the store after the commands the leader accepted
+         LET now == NowMs(mm)
+             Bad == {i \in 1..Len(e.vals) : LET st == KvOf(mm, e.vals[i].key) IN
+                                            st.known /\ Sure(st.v, now) /\ ReplyRec(e.vals[i]) \notin RC!ReadReply(st.v)}
              m1 == Check(mm, Bad = {}, "C10", "leader-value-differs-from-last-acknowledged-set",
-                         [vals |-> SetToSeq({[key |-> e.vals[i].key, got |-> e.vals[i].val, expected |-> mm.vals[e.vals[i].key].val] : i \in Bad})])
+                         [vals |-> SetToSeq({[key |-> e.vals[i].key, got |-> ReplyRec(e.vals[i]), expected |-> RC!ReadReply(KvOf(mm, e.vals[i].key).v)] : i \in Bad})])
          IN [m1 EXCEPT !.lvals = e.vals]
     ELSE LET Bad == {i \in 1..Len(e.vals) : e.caught /\ i <= Len(mm.lvals) /\ (e.vals[i].nil # mm.lvals[i].nil \/ e.vals[i].val # mm.lvals[i].val)}
          IN Check(mm, Bad = {}, "C10", "follower-value-differs-from-leader",
